@@ -701,5 +701,11 @@ def c04_parax_centred(ctx):
     return _r(ctx)
 
 
-RULES = [c04_parax_centred, trial_updated, sampler_rng, index_edit, c01_setters, c01_init_stores, c14_update, trial_record, final_reset, reset_before_apply, reset_covers, one_sample,
+
+def no_stale(ctx):
+    from .common import stale_cache
+    return stale_cache(ctx, 'NO-STALE-STATE', [],
+                       'a trial is evaluated with values of an earlier trial', min_methods=0)
+
+RULES = [no_stale, c04_parax_centred, trial_updated, sampler_rng, index_edit, c01_setters, c01_init_stores, c14_update, trial_record, final_reset, reset_before_apply, reset_covers, one_sample,
          target_default]
